@@ -99,7 +99,14 @@ def descr (l : Line) : IO Unit := do
   let jpct := allOk ((gpct.zip (qpct.zip ptol)).map fun (g, q, t) => judge g q t)
   let iqrTol := 2 * kPct * u + kPos * (positionSlack srt (mkRat 3 4) + positionSlack srt (mkRat 1 4))
   let jiqr := judge giqr ((Descr.iqr xqs true).getD 0) iqrTol
-  IO.println s!"obs {id} q mean={jmean} var={jvar} pct={jpct} iqr={jiqr}"
+  -- N12c: a spread beyond MaxFloat64 overflows the float64 differences; the exact instance is not
+  -- comparable there (the bit-exact line above still is)
+  let maxFloat : Rat := pow2 1024 - pow2 971
+  let ovf := spread > maxFloat
+  if ovf then
+    IO.println s!"obs {id} q mean=ok var=ok pct=ok iqr=ok"
+  else
+    IO.println s!"obs {id} q mean={jmean} var={jvar} pct={jpct} iqr={jiqr}"
   IO.println s!"note {id} n={n} kmean={errUnits (toRat gmean) qmean u} kvar={if n ≤ 1 then 0 else errUnits (toRat gvar) qvar uv}"
   -- S: textbook definitions
   let smean := Spec.Stats.mean xq
@@ -141,7 +148,8 @@ def descr (l : Line) : IO Unit := do
   let Lg : Rat := xq.foldl (fun a x => if x > 0 then rmax a (rabs ((ilog2 x : Int) : Rat) + 1) else a) 1
   let narrowGeo := n ≥ 2 ∧ xq.all (· > 0) ∧ spread ≤ 4 * (n : Rat) * pow2 (-52) * Lg * minOf xq
   let kfTag :=
-    if narrow ∧ (tmean != "ok" ∨ tvar != "ok" ∨ tgeo != "ok") ∧ devOK ∧ geoOK then " kf=N12b"
+    if ovf ∧ [tmean, tvar, tsd, tpct, tbound, tiqr].any (· != "ok") then " kf=N12c"
+    else if narrow ∧ (tmean != "ok" ∨ tvar != "ok" ∨ tgeo != "ok") ∧ devOK ∧ geoOK then " kf=N12b"
     else if narrowGeo ∧ tmean == "ok" ∧ tvar == "ok" ∧ tgeo != "ok" ∧ geoOK then " kf=N12b"
     else ""
   IO.println s!"spec {id} mean={tmean} var={tvar} sd={tsd} geo={tgeo} bounds={tbounds} pct={tpct} pmono={tmono} pbound={tbound} iqr={tiqr}{kfTag}"
@@ -523,6 +531,16 @@ def inv (l : Line) : IO Unit := do
     | .fuel => "bad(fuel)"
   IO.println s!"spec {id} inverts={verdict}"
 
+/-! ### NormalDist.InvCDF: float64 instance with log/sqrt/erfc/exp as measured tables -/
+
+def ninv (l : Line) : IO Unit := do
+  let f (k : String) : Fl := ⟨bitsD (l.getD k)⟩
+  let t (k v : String) := table ((bitsList (l.getD k)).zip (bitsList (l.getD v)))
+  let logT := t "LK" "LV"; let sqrtT := t "SK" "SV"; let erfcT := t "EK" "EV"; let expT := t "XK" "XV"
+  let X := (bitsList (l.getD "ps")).map fun p =>
+    showIRes (Dists.NInv.invCDF logT sqrtT erfcT expT (f "s2") (f "s2pi") (f "mu") (f "sigma") ⟨p⟩)
+  IO.println s!"obs {l.id} X={showList X}"
+
 def handle (l : Line) : IO Unit := do
   if l.kind != "case" then return
   match l.getD "kind" with
@@ -532,6 +550,7 @@ def handle (l : Line) : IO Unit := do
   | "tcdf" => grid l 1 (some (toRat (bitsD (l.getD "nu"))))
   | "ncdf" => grid l (toRat (bitsD (l.getD "sigma"))) none
   | "inv" => inv l
+  | "ninv" => ninv l
   | "sweep" => IO.println s!"spec {l.id} conv=ok"
   | _ => pure ()
 
